@@ -12,6 +12,11 @@ NOTE = ('Trusted: CrossHair\'s symbolic models of Python builtins, z3, the harne
         'INCOMPLETE and are not counted as discharged.')
 
 CLAIMED = {
+    'C20': ('symbolic execution of pg.to_html over values whose strings are built from symbolic metacharacter codes and '
+            'symbolic view options; stdlib HTML tokenizer as oracle (CrossHair/z3)', '§3 C20',
+            'Well-formedness, identical element/attribute structure to the same value rendered with harmless letters (no '
+            'data-introduced markup), presence of keys and leaves, and no modification of the rendered value, for all '
+            'strings up to the length bound and all option combinations in the bound.'),
     'C17': ('symbolic execution of nested scope programs over a registry of all thread-scoped context managers; reference '
             'nesting rules; observation from a second OS thread at every event (CrossHair/z3)', '§3 C17',
             'Manager choice, arguments, depth, exception and catch level are symbolic; effective values must follow the '
